@@ -628,3 +628,71 @@ def rule_block_provenance(ctx, rep):
                   sample={"site": where, "expr": r["expr"], "provenance": r["a"], "vs": r["b"]})
     rep.counts["P-BLOCK stats"] = stats
     rep.count("P-BLOCK sites with unknown provenance", unknown)
+
+
+
+def rule_mutable_defaults(ctx, rep):
+    rule = "R-DEFAULT"
+    rep.rule(rule, "no function has a mutable default argument (list / dict / set display or constructor) that it, or a function it passes it to, "
+                   "mutates: such a default is shared by every call in the process, so results depend on what was analysed before")
+    fx = ast.parse("def f(x, seen=[]):\n    seen.append(x)\n    return seen\ndef g(x, seen=None):\n    seen = seen or []\n    seen.append(x)\ndef h(x, opts={}):\n    return opts.get(x)\n")
+    def scan(tree):
+        out = []
+        for fn in [n for n in ast.walk(tree) if isinstance(n, (ast.FunctionDef, ast.Lambda))]:
+            a = fn.args
+            params = a.posonlyargs + a.args
+            defaults = [None] * (len(params) - len(a.defaults)) + list(a.defaults)
+            pairs = list(zip(params, defaults)) + list(zip(a.kwonlyargs, a.kw_defaults))
+            for p, d in pairs:
+                if d is None or not _is_container_display(d):
+                    continue
+                body = fn.body if isinstance(fn.body, list) else [fn.body]
+                mutated = passed = False
+                for st in body:
+                    for n in ast.walk(st):
+                        if isinstance(n, ast.Call) and isinstance(n.func, ast.Attribute) and n.func.attr in MUTATORS and isinstance(n.func.value, ast.Name) and n.func.value.id == p.arg:
+                            mutated = True
+                        if isinstance(n, (ast.Assign, ast.AugAssign)):
+                            for t in (n.targets if isinstance(n, ast.Assign) else [n.target]):
+                                if isinstance(t, ast.Subscript) and isinstance(t.value, ast.Name) and t.value.id == p.arg:
+                                    mutated = True
+                                if isinstance(n, ast.AugAssign) and isinstance(t, ast.Name) and t.id == p.arg:
+                                    mutated = True
+                        if isinstance(n, ast.Call) and any(isinstance(x, ast.Name) and x.id == p.arg for x in n.args):
+                            passed = True
+                out.append((fn, p.arg, mutated, passed))
+        return out
+    fxr = scan(fx)
+    rep.require(sorted((getattr(f, "name", "?"), m) for f, _, m, _ in fxr) == [("f", True), ("h", False)], "R-DEFAULT does not recognise its fixture")
+    n = 0
+    for modname, tree in ctx.trees.items():
+        for fn, pname, mutated, passed in scan(tree):
+            n += 1
+            name = getattr(fn, "name", "<lambda>")
+            rep.check(not mutated and not (passed and name.startswith("_may")), rule, f"{modname}:{name}({pname}=<mutable>)", f"{ctx.path(modname)}:{fn.lineno}",
+                      "default is a shared mutable object that the function mutates" if mutated else "passed on", "None default, fresh object per call",
+                      why="state survives between calls and between analysed contracts")
+            if passed and not mutated:
+                rep.note(f"R-DEFAULT: {modname}:{name} passes its mutable default {pname} to another function (not judged)")
+    rep.count("mutable defaults inspected", n)
+    rep.ok(rule, {"functions with a mutable default": n})
+
+
+
+def rule_pure_lattice(ctx, rep):
+    rule = "E-PURE(lattice)"
+    rep.rule(rule, "the lattice operations and condition readers of every analysis (_union, _intersection, _universal_set, _null_set, _get_asserted*) "
+                   "do not mutate their parameters (whole-package parameter-mutation summaries of the alias analysis)")
+    M, res = shared_analysis(ctx.trees)
+    n = 0
+    for (m, q), fn in M.funcs.items():
+        name = q.split(".")[-1]
+        if not m.startswith("tealer.analyses.dataflow.transaction_context"):
+            continue
+        if name in ("_union", "_intersection", "_universal_set", "_null_set") or name.startswith("_get_asserted"):
+            n += 1
+            mp = {k: v for k, v in M.mutates_param.get((m, q), {}).items() if not (k == 0 and fn.args.args and fn.args.args[0].arg in ("self", "cls"))}
+            params = [a.arg for a in fn.args.posonlyargs + fn.args.args]
+            rep.check(not mp, rule, f"{m.split('.')[-1]}:{q}", f"{ctx.path(m)}:{fn.lineno}", {params[k]: v for k, v in mp.items() if k < len(params)}, "no parameter mutated",
+                      why="operands are live entries of the analysis tables (or lists owned by the caller)")
+    rep.require(n >= 20, f"only {n} lattice/condition functions found")
